@@ -140,6 +140,8 @@ def feed_fifos(argv, cwd, proc):
                 time.sleep(0.002)
             fd = None
             while fd is None:
+                if proc.poll() is not None:
+                    return          # never touch the FIFO once our process is gone: the next run may already own it
                 try:
                     fd = os.open(path, os.O_WRONLY | os.O_NONBLOCK)
                 except OSError as e:
@@ -187,7 +189,7 @@ def run_real(binary, argv, root, stdout_kind, stdin_bytes):
             out, err = p.communicate()
             to = True
         for t in ts:
-            t.join(2)
+            t.join()            # a feeder must be gone before this directory (and its FIFOs) serves the next run
         if stdout_kind == "file":
             out_f.close()
             out = open(os.path.join(root, "fifo-out.bin"), "rb").read()
@@ -198,8 +200,7 @@ def run_real(binary, argv, root, stdout_kind, stdin_bytes):
         with cli.FORK_LOCK:
             p = subprocess.Popen([binary] + argv, stdin=subprocess.PIPE, stdout=slave, stderr=subprocess.PIPE, cwd=cwd)
             os.close(slave)
-        if any(n in argv for n in FIFOS):
-            feed_fifos(argv, cwd, p)
+        tty_feeders = feed_fifos(argv, cwd, p) if any(n in argv for n in FIFOS) else []
         try:
             p.stdin.write(stdin_bytes)
             p.stdin.close()
@@ -225,6 +226,8 @@ def run_real(binary, argv, root, stdout_kind, stdin_bytes):
         err = p.stderr.read()
         p.wait(timeout=20)
         os.close(master)
+        for t in tty_feeders:
+            t.join()            # a feeder must be gone before this directory (and its FIFOs) serves the next run
         rc = p.returncode
         return {"exit": rc if rc >= 0 else None, "signal": -rc if rc < 0 else 0, "stdout": out.replace(b"\r\n", b"\n"), "stderr": err, "timeout": False}
     if stdout_kind == "slowpipe":
